@@ -54,11 +54,52 @@ static long long parse_int(const char *s)
     return neg ? -(long long)v : (long long)v;
 }
 
+/* outputs of earlier packet operations, by script line, so that later lines can
+   feed them back:  @N  with modifiers  ~K (flip bit K)  <K (truncate to K bytes)  +HEX (append) */
+#define MAXSAVE 65536
+static uint8_t *saved[MAXSAVE];
+static size_t saved_len[MAXSAVE];
+void save_output(int lineno, const uint8_t *p, size_t n)
+{
+    if (lineno < 0 || lineno >= MAXSAVE) return;
+    free(saved[lineno]);
+    saved[lineno] = malloc(n ? n : 1);
+    if (n) memcpy(saved[lineno], p, n);
+    saved_len[lineno] = n;
+}
+
 static void parse_bytes(const char *s, int k)
 {
     if (strcmp(s, "-") == 0) {
-        BA[k] = malloc(1); /* distinct pointer, zero usable bytes under ASan is not possible; 1 byte block, length 0 */
+        BA[k] = malloc(1);
         BL[k] = 0;
+        return;
+    }
+    if (*s == '@') {
+        char *e;
+        long ln = strtol(s + 1, &e, 16);
+        size_t n = (ln >= 0 && ln < MAXSAVE && saved[ln]) ? saved_len[ln] : 0;
+        size_t cap = n + strlen(e) / 2 + 1;
+        uint8_t *b = malloc(cap);
+        if (n) memcpy(b, saved[ln], n);
+        while (*e) {
+            char op = *e++;
+            if (op == '+') {
+                while (hexval(e[0]) >= 0 && hexval(e[1]) >= 0) {
+                    b[n++] = (uint8_t)(hexval(e[0]) * 16 + hexval(e[1]));
+                    e += 2;
+                }
+            } else {
+                unsigned long v = strtoul(e, &e, 16);
+                if (op == '~') { if ((v >> 3) < n) b[v >> 3] ^= (uint8_t)(0x80 >> (v & 7)); }
+                else if (op == '<') { if (v < n) n = v; }
+            }
+        }
+        /* exact-size copy so that ASan guards the end */
+        BA[k] = malloc(n ? n : 1);
+        memcpy(BA[k], b, n);
+        BL[k] = n;
+        free(b);
         return;
     }
     size_t n = strlen(s) / 2;
@@ -168,9 +209,9 @@ int main(int argc, char **argv)
     int lineno = 0;
     (void)argc; (void)argv;
     setvbuf(stdout, NULL, _IOFBF, 1 << 16);
-    api_init();
-    srtp_rdbx_init(&rdbx, 128);
+    srtp_rdbx_init(&rdbx, 128); /* before allocation tracking starts */
     rdbx_live = 1;
+    api_init();
     while (getline(&line, &linecap, stdin) > 0) {
         lineno++;
         char *p = line;
